@@ -83,6 +83,9 @@ def tensordot(lhs, rhs, axes=2):
         left_axes = tuple(left_axes)
     if isinstance(right_axes, list):
         right_axes = tuple(right_axes)
+    # The block function re-inserts the contracted axes by position, so they
+    # must be non-negative positions of ``lhs``.
+    left_axes = tuple(ax if ax >= 0 else lhs.ndim + ax for ax in left_axes)
 
     is_sparse = _tensordot_is_sparse(lhs) or _tensordot_is_sparse(rhs)
     if is_sparse and len(left_axes) == 1:
@@ -132,7 +135,6 @@ def tensordot(lhs, rhs, axes=2):
     if concatenate:
         return intermediate
     else:
-        left_axes = [ax if ax >= 0 else lhs.ndim + ax for ax in left_axes]
         return intermediate.sum(axis=left_axes)
 
 
